@@ -88,8 +88,157 @@ def contained(node: ast.AST) -> bool:
                 if t in ("Exception", "BaseException") or h.type is None:
                     if not any(isinstance(x, ast.Raise) for st in h.body for x in ast.walk(st)):
                         return True
+        # `with contextlib.suppress(Exception):` is the same construct spelled as a context manager
+        if isinstance(a, (ast.With, ast.AsyncWith)) and any(child is s for s in a.body) and _suppressed(a) & {"Exception", "BaseException"}:
+            return True
         child = a
     return False
+
+
+def _suppressed(w: ast.AST) -> Set[str]:
+    """Exception classes (last component of their names) swallowed by a `with contextlib.suppress(..)` statement."""
+    out: Set[str] = set()
+    for it in getattr(w, "items", []):
+        c = it.context_expr
+        if isinstance(c, ast.Call) and dotted_name(c.func) in ("contextlib.suppress", "suppress") and not c.keywords:
+            for a in c.args:
+                out |= {(dotted_name(e) or "?").split(".")[-1] for e in (a.elts if isinstance(a, ast.Tuple) else [a])}
+    return out
+
+
+class _TraceFacts:
+    """Which locals of execute() tell that a trace driver is attached, decided from the value they are bound to (not
+    from the spelling of the test): `pos` - the local being true implies the trace parameter is present, `neg` - the
+    local being false implies it, `nn` - the local not being None implies it.  A test guarantees presence on the
+    edges `cfg.edges_guaranteeing` derives from these atoms, so `a is not None and b`, `not (a is None or not b)`
+    and an inverted test with swapped branches are the same thing."""
+
+    _FALSY = (None, "", 0, False, 0.0, b"")
+
+    def __init__(self, ex: ast.AST):
+        self.ex = ex
+        self.param = _orch.trace_param(ex)
+        self.pos: Set[str] = {self.param}
+        self.neg: Set[str] = set()
+        self.nn: Set[str] = {self.param}
+        # (value or None when the binding is not a plain assignment, the binding statement)
+        bound: Dict[str, List[Tuple[Optional[ast.AST], ast.AST]]] = {}
+        for n in walk_no_nested(ex):
+            if isinstance(n, ast.Assign):
+                for t in n.targets:
+                    if isinstance(t, ast.Name):
+                        bound.setdefault(t.id, []).append((n.value, n))
+                    else:
+                        for nm in names_stored(t):
+                            bound.setdefault(nm, []).append((None, n))
+            elif isinstance(n, ast.AnnAssign) and isinstance(n.target, ast.Name):
+                if n.value is not None:
+                    bound.setdefault(n.target.id, []).append((n.value, n))
+            elif isinstance(n, ast.NamedExpr):
+                bound.setdefault(n.target.id, []).append((n.value, n))
+            elif isinstance(n, (ast.AugAssign, ast.For, ast.AsyncFor)):
+                for nm in names_stored(n.target):
+                    bound.setdefault(nm, []).append((None, n))
+            elif isinstance(n, (ast.With, ast.AsyncWith)):
+                for it in n.items:
+                    if it.optional_vars is not None:
+                        for nm in names_stored(it.optional_vars):
+                            bound.setdefault(nm, []).append((None, n))
+            elif isinstance(n, ast.ExceptHandler) and n.name:
+                bound.setdefault(n.name, []).append((None, n))
+        bound.pop(self.param, None)
+        changed = True
+        while changed:
+            changed = False
+            for nm, vals in bound.items():
+                for k, cell in (("pos", self.pos), ("neg", self.neg), ("nn", self.nn)):
+                    if nm in cell:
+                        continue
+                    # the local tells something when every binding either does (by its value, or because it is only
+                    # executed under a test that does) or binds a constant that cannot be mistaken for it
+                    telling = [k in self._kinds(v) or k in self._guard_kinds(n) for v, n in vals]
+                    neutral = [self._neutral(v, k) for v, _n in vals]
+                    if any(telling) and all(t or u for t, u in zip(telling, neutral)):
+                        cell.add(nm)
+                        changed = True
+
+    def _neutral(self, v: Optional[ast.AST], k: str) -> bool:
+        if v is None:
+            return False
+        if k == "nn":
+            return isinstance(v, ast.Constant) and v.value is None
+        if k == "pos":
+            return self._falsy_const(v)
+        return isinstance(v, ast.Constant) and bool(v.value)
+
+    def _guard_kinds(self, n: ast.AST) -> Set[str]:
+        """A binding that is only executed on an edge of a test that guarantees the trace: the local is true / not
+        None only if that edge was taken (given that its other bindings are constants that are false / None)."""
+        child = n
+        for a in ancestors(n):
+            if isinstance(a, FuncNode + (ast.Lambda,)):
+                break
+            if isinstance(a, ast.If):
+                eg = edges_guaranteeing(a.test, self.atom)
+                if ("T" in eg and any(child is s for s in a.body)) or ("F" in eg and any(child is s for s in a.orelse)):
+                    return {"pos", "nn"}
+            child = a
+        return set()
+
+    def _falsy_const(self, e: ast.AST) -> bool:
+        if isinstance(e, ast.Constant):
+            return not e.value
+        if isinstance(e, (ast.Dict, ast.List, ast.Tuple, ast.Set)):
+            return not (e.keys if isinstance(e, ast.Dict) else e.elts)
+        return False
+
+    def _kinds(self, v: Optional[ast.AST]) -> Set[str]:
+        if v is None:
+            return set()
+        if isinstance(v, ast.Name):
+            return {k for k, cell in (("pos", self.pos), ("neg", self.neg), ("nn", self.nn)) if v.id in cell}
+        if isinstance(v, ast.Call) and call_attr(v) == "cast" and len(v.args) == 2 and not v.keywords:
+            return self._kinds(v.args[1])
+        if isinstance(v, ast.NamedExpr):
+            return self._kinds(v.value)
+        if isinstance(v, ast.IfExp):
+            eg = edges_guaranteeing(v.test, self.atom)
+            for lab, other in (("T", v.orelse), ("F", v.body)):
+                if lab in eg and self._falsy_const(other):
+                    # true / not None only on the arm that is taken when the trace is present
+                    return {"pos"} | ({"nn"} if isinstance(other, ast.Constant) and other.value is None else set())
+            return self._kinds(v.body) & self._kinds(v.orelse)
+        eg = edges_guaranteeing(v, self.atom)
+        return ({"pos"} if "T" in eg else set()) | ({"neg"} if "F" in eg else set())
+
+    def atom(self, e: ast.AST) -> Optional[bool]:
+        """True: *e* being true means the trace is present; False: *e* being false means it."""
+        if isinstance(e, ast.Name):
+            return True if e.id in self.pos else False if e.id in self.neg else None
+        if isinstance(e, ast.NamedExpr):
+            return self.atom(e.value)
+        if isinstance(e, ast.Compare) and len(e.ops) == 1:
+            l, r_ = e.left, e.comparators[0]
+            if isinstance(l, ast.Constant) and l.value is None:
+                l, r_ = r_, l
+            if isinstance(l, ast.Name) and l.id in self.nn and isinstance(r_, ast.Constant) and r_.value is None:
+                if isinstance(e.ops[0], (ast.IsNot, ast.NotEq)):
+                    return True
+                if isinstance(e.ops[0], (ast.Is, ast.Eq)):
+                    return False
+        return None
+
+    def fold(self, e: ast.AST) -> Optional[bool]:
+        """True when the test can only be true with a trace attached, False when it can only be false with one."""
+        eg = edges_guaranteeing(e, self.atom)
+        return True if "T" in eg else False if "F" in eg else None
+
+    def driver_vars(self) -> Set[str]:
+        out = set()
+        for c in calls_in(self.ex):
+            if isinstance(c.func, ast.Attribute) and c.func.attr in _orch.DRIVER_METHODS and isinstance(c.func.value, ast.Name) and c.func.value.id in (self.nn | self.pos):
+                out.add(c.func.value.id)
+        return out
 
 
 def run(repo: Repo, R: Report) -> None:
@@ -100,20 +249,15 @@ def run(repo: Repo, R: Report) -> None:
         "time/clock reads and uuid4 feed only the documented volatile fields",
     )
     R.undecided("equality of returned values traced vs untraced for payload classes with side-effecting hooks", "byte equality of two traces (only the structural sources of non-volatile differences are decided)")
-    tainted = _orch.trace_tainted(ex)
-    drivers = _orch.driver_vars(ex)
-    fold = _orch.make_fold(tainted)
+    facts = _TraceFacts(ex)
+    drivers = facts.driver_vars()
+    fold = facts.fold
 
     # ------------------------------------------------------------------ D3 gating
     r_gate = R.rule("C10-D3-gating", "every trace driver call in execute is reachable only through a test that the trace/driver is present", 6)
     g = CFG(ex, may_raise=lambda p: set())
 
-    def present_atom(e: ast.AST) -> Optional[bool]:
-        if isinstance(e, ast.Name) and e.id in tainted:
-            return True
-        if isinstance(e, ast.Compare) and len(e.ops) == 1 and isinstance(e.left, ast.Name) and e.left.id in tainted and isinstance(e.comparators[0], ast.Constant) and e.comparators[0].value is None:
-            return isinstance(e.ops[0], ast.IsNot)
-        return None
+    present_atom = facts.atom
 
     dnodes = [n for n in g.nodes if n.ast is not None and n.kind == "stmt" and any(_orch.is_driver_call(c, drivers) for c in calls_in(n.ast))]
     if len(dnodes) < 5:
@@ -569,6 +713,63 @@ GRAPH = "semantiva/pipeline/graph_builder.py"
 SANITISERS = {"float", "int", "str", "bool", "len", "repr", "_json_safe_sample", "serialize_json_safe", "safe_repr", "sha256_bytes", "_sha256_json", "hexdigest"}
 
 
+_LEAF_CTX: Dict[str, object] = {}
+
+
+def _sanitiser_problems(repo: Repo, rel: str, qn: str) -> List[Tuple[ast.AST, str]]:
+    """(return statement, why) for every return of the function through which a value can leave that is neither text,
+    nor built by a total conversion, nor the argument after a proof that the strict JSON encoder accepts it (a completed
+    `json.dumps` of the whole value, a test against the exact JSON scalar types - of every item, for a container) on
+    every path to that return.  The value analysis is the one C06-D2c uses for the sanitisers it knows by name
+    (`c06._Sanitiser`: normal form, CFG, proof edges); here it is applied to whatever function plays the role."""
+    from . import c06
+
+    S = c06._Sanitiser(repo, rel, qn)
+    g = S.g
+    rets = [n for n in g.nodes if n.kind == "stmt" and isinstance(n.ast, ast.Return)]
+    if not rets:
+        raise AnalysisError(f"{qn}: no return statement found")
+    out: List[Tuple[ast.AST, str]] = []
+    edges_cache: Dict[str, Set[Tuple[int, str]]] = {}
+    done: Set[int] = set()
+    for n in rets:
+        if id(n.ast) in done or n.ast.value is None:
+            continue
+        done.add(id(n.ast))
+        ids = g.nodes_for(n.ast)
+        arms: List[Tuple[ast.AST, List[Tuple[ast.AST, bool]]]] = []
+
+        def split(e: ast.AST, guards) -> None:
+            if isinstance(e, ast.IfExp):
+                split(e.body, guards + [(e.test, True)])
+                split(e.orelse, guards + [(e.test, False)])
+            else:
+                arms.append((e, guards))
+
+        split(n.ast.value, [])
+        for arm, guards in arms:
+            for tag in sorted(S.classify(arm, ids)):
+                if tag in ("text", "safe"):
+                    continue
+                if tag.startswith("raw:"):
+                    ptag = tag[4:]
+                    if ptag not in edges_cache:
+                        edges_cache[ptag] = S.proof_edges(ptag)
+                    seen = g.reach([g.entry], blocked_edges=edges_cache[ptag])
+                    open_ids = [i for i in ids if i in seen]
+                    if not open_ids:
+                        continue
+                    subj = lambda x, ids_=ids, ptag_=ptag: S.param_of(x, ids_) == ptag_
+                    if any(("T" if pol else "F") in edges_guaranteeing(t, lambda tt: S.proves(tt, subj)) for t, pol in guards):
+                        continue
+                    path = g.path_to(seen, open_ids[0])
+                    via = next((p_.split(": ", 1)[-1].split(" <-")[0][:80] for p_ in reversed(path[:-1]) if ": <" not in p_), "function entry")
+                    out.append((n.ast, f"returns its argument `{ptag.split('@')[0]}` unchanged on a path where nothing proves that json.dumps accepts it (reached via `{via}`): only a completed strict json.dumps of the whole value, or a test against the exact JSON scalar types str / int / float / bool / None (of every item, for a container), does - `numbers.Number` also covers numpy scalars, Decimal, Fraction and complex"))
+                else:
+                    out.append((n.ast, f"returns `{tag[1:]}`, which is neither text nor a value proven JSON-encodable"))
+    return out
+
+
 def _leaf_safe(fn: ast.AST, e: ast.AST, depth: int = 0) -> bool:
     """Is the value of *e* JSON-safe by construction (sanitiser table, literals, containers of those)?  Locals are
     looked up by whatever name they have (all their assignments must be safe)."""
@@ -578,6 +779,14 @@ def _leaf_safe(fn: ast.AST, e: ast.AST, depth: int = 0) -> bool:
         return True
     if isinstance(e, ast.Call):
         a = call_attr(e)
+        if _LEAF_CTX:
+            # a function of the repository applied to the leaf is a sanitiser by role, whatever it is called and
+            # wherever it lives: whether it deserves the name is decided on its own body (C10-D1b-leaf-sanitisers-sound)
+            targets = [(m, t) for m, t in _LEAF_CTX["repo"].resolve_call(_LEAF_CTX["mod"], e) if isinstance(t, ast.FunctionDef) and t.name != "__init__"]
+            if targets and enclosing_function_is_module_or_class(targets[0][1]):
+                for m, t in targets:
+                    _LEAF_CTX["found"].setdefault(id(t), (m.rel, qualname_of(t), e))
+                return True
         if a in SANITISERS:
             return True
         if a in ("list", "sorted", "tuple") and e.args:
@@ -689,6 +898,26 @@ def _returned_forms(repo: Repo, mod, f: ast.AST, depth: int = 0, seen: Tuple[int
 
 def _json_safe_producers(repo: Repo, R: Report) -> None:
     r = R.rule("C10-D1b-json-safe-producers", "what the traced run serialises outside a containing try (preprocessor metadata in SER construction, the canonical spec handed to pipeline_start / compute_pipeline_id) is JSON-safe by construction: every leaf of a sweep variable's domain signature passes a sanitiser, and a canonical node is appended only after it has been json-dumped (a failure there fails traced and untraced runs alike, before execute)", 6)
+    r_san = R.rule("C10-D1b-leaf-sanitisers-sound", "a function of the repository that the producers of uncontained trace input apply to a leaf (a sample of a sweep sequence, a value stored into a canonical node) - found by that role, not by its name or home module - lets a value out only as text, through a total conversion, or as its argument after a proof that the strict JSON encoder accepts it on every path to that return (completed json.dumps of the whole value; test against the exact JSON scalar types): the consumers in the trace-only part of execute() (`compute_pipeline_semantic_id(canonical)`, the pipeline_start record) json-dump what it returns outside any try, so an unsound fast path makes the traced run raise where the untraced run returns", 1)
+    _LEAF_CTX.clear()
+    _LEAF_CTX.update({"repo": repo, "mod": repo.module(SEM), "found": {}})
+    try:
+        _json_safe_producers_body(repo, R, r)
+        found = dict(_LEAF_CTX["found"])  # type: ignore[arg-type]
+    finally:
+        _LEAF_CTX.clear()
+    if not found:
+        raise AnalysisError("no repository function is applied to a leaf of the domain signature / a canonical node (the sample sanitiser vanished)")
+    for rel, qn, site in sorted(found.values(), key=lambda t: (t[0], t[1])):
+        probs = _sanitiser_problems(repo, rel, qn)
+        if probs:
+            ret, why = probs[0]
+            R.violation(r_san, rel, qn, norm(ret)[:100], f"{why}; `{norm(site)[:50]}` puts what it returns into metadata that the trace-only part of execute() hashes / writes uncontained (the preprocessor metadata copied into the canonical spec): a sweep over such values runs untraced and raises TypeError as soon as a trace driver is attached", ret.lineno)
+        else:
+            R.ok(r_san, rel, qn, f"{qn}: text, a total conversion, or the argument after a proof of encodability (applied at `{norm(site)[:50]}`)")
+
+
+def _json_safe_producers_body(repo: Repo, R: Report, r) -> None:
     vds = nfunc(repo, SEM, "variable_domain_signature", keep=tuple(SANITISERS))
     n_leaves = 0
     for scope, ret, form in _returned_forms(repo, repo.module(SEM), vds):
@@ -715,6 +944,8 @@ def _json_safe_producers(repo: Repo, R: Report) -> None:
         raise AnalysisError("variable_domain_signature: no returned value recognised")
 
     # canonical nodes: appended only after having been json-dumped
+    if _LEAF_CTX:
+        _LEAF_CTX["mod"] = repo.module(GRAPH)
     bcs = nfunc(repo, GRAPH, "build_canonical_spec")
     node_lists: Set[str] = set()
     for ret in [n for n in walk_no_nested(bcs) if isinstance(n, ast.Return) and n.value is not None]:
@@ -848,11 +1079,11 @@ def _canonical_element(R: Report, r, bcs: ast.AST, g: CFG, c: ast.AST, elem_expr
         # whatever is stored into the node after the dump must itself be safe
         for n in walk_no_nested(bcs):
             if isinstance(n, ast.Assign) and len(n.targets) == 1 and isinstance(n.targets[0], ast.Subscript) and dotted_name(n.targets[0].value) in base:
-                if not _leaf_safe(bcs, n.value) and uncovered(g.nodes_for(n)):
+                if uncovered(g.nodes_for(n)) and not _leaf_safe(bcs, n.value):
                     bad = f"`{norm(n)[:60]}` stores an unsanitised value into the node after (or without) the json.dumps that vouches for it"
                     break
         for v in extras:
-            if not bad and not _leaf_safe(bcs, v) and uncovered(g.nodes_for(stmt_of(v))):
+            if not bad and uncovered(g.nodes_for(stmt_of(v))) and not _leaf_safe(bcs, v):
                 bad = f"`{norm(v)[:60]}` is put into the node next to the dumped entries, after (or without) the json.dumps that vouches for it"
     R.check(not bad, r, GRAPH, "build_canonical_spec", f"a canonical node is json-dumped before it is appended ({norm(c)[:40]})", bad + ": canonical nodes are no longer serialised when built, so a non-JSON parameter is only discovered when the traced run hashes / writes the spec (the untraced run succeeds)", c.lineno)
 
@@ -958,10 +1189,103 @@ def _source_kind(c: ast.Call) -> Optional[str]:
     return None
 
 
-def _flows_to_output(f: ast.AST, src: ast.Call) -> Optional[ast.AST]:
-    """Does the value of the call *src* reach what *f* returns / yields / hands to a driver or a file?  Name-level
+# interpreter-wide tables and counters that the code running in the process changes as a side effect of running: what
+# they hold when a run is traced is a record of what ran before (which modules were imported, how many objects /
+# threads / loggers exist), not a property of the installed environment
+HISTORY_TABLES = {"sys.modules", "sys.path", "sys.meta_path", "sys.path_hooks", "sys.path_importer_cache", "gc.garbage", "warnings.filters",
+                  "logging.root.manager.loggerDict", "logging.Logger.manager.loggerDict", "threading._active"}
+# kept out: importlib.metadata.*, import_module, importlib.util.find_spec, platform.* - they answer from what is installed
+HISTORY_CALLS = {"gc.get_objects", "gc.get_count", "gc.get_stats", "gc.get_referrers", "gc.get_referents", "sys.getallocatedblocks", "sys._getframe",
+                 "sys._current_frames", "threading.active_count", "threading.enumerate", "tracemalloc.get_traced_memory",
+                 "tracemalloc.take_snapshot", "resource.getrusage", "inspect.stack", "inspect.currentframe"}
+_IMPORTERS = {"import_module", "importlib.import_module", "__import__", "importlib.__import__"}
+
+
+def _lookup_backed_by_import(f: ast.AST, table: ast.AST, key: ast.AST, full) -> bool:
+    """The look-up of *key* in the module table is only a short cut for importing it: every path through *f* to a
+    normal return either runs `import_module(<key>)` or leaves a test on the edge that says the look-up succeeded
+    (`m is not None`, `m`, `<key> in sys.modules`) - so the module used is the one an import yields, whether or not
+    something imported it before."""
+    g = CFG(f)
+    st = stmt_of(table)
+    holders: Set[str] = set()
+    if isinstance(st, (ast.Assign, ast.AnnAssign)) and getattr(st, "value", None) is not None:
+        for t in (st.targets if isinstance(st, ast.Assign) else [st.target]):
+            if isinstance(t, ast.Name):
+                holders.add(t.id)
+    for x in ast.walk(st):
+        if isinstance(x, ast.NamedExpr) and any(y is table for y in ast.walk(x.value)):
+            holders.add(x.target.id)
+    k = norm(key)
+
+    def found(e: ast.AST) -> Optional[bool]:
+        if isinstance(e, ast.NamedExpr):
+            e = ast.Name(id=e.target.id, ctx=ast.Load())
+        if isinstance(e, ast.Name) and e.id in holders:
+            return True
+        if isinstance(e, ast.Compare) and len(e.ops) == 1:
+            l, r_, op = e.left, e.comparators[0], e.ops[0]
+            if isinstance(l, ast.Name) and l.id in holders and isinstance(r_, ast.Constant) and r_.value is None:
+                return True if isinstance(op, (ast.IsNot, ast.NotEq)) else False if isinstance(op, (ast.Is, ast.Eq)) else None
+            if isinstance(op, (ast.In, ast.NotIn)) and norm(l) == k and full(r_) == "sys.modules":
+                return isinstance(op, ast.In)
+        return None
+
+    blocked: Set[Tuple[int, str]] = set()
+    for n in g.nodes:
+        if n.kind in ("if", "while") and n.part is not None:
+            blocked |= {(n.id, e) for e in edges_guaranteeing(n.part, found)}
+        elif n.kind == "stmt" and n.ast is not None and not isinstance(n.ast, FuncNode + (ast.ClassDef,)):
+            if any((full(c.func) or "") in _IMPORTERS and c.args and norm(c.args[0]) == k for c in calls_in(n.ast)):
+                blocked |= {(n.id, lab) for _t, lab in g.succ[n.id]}  # a failed import is decided by what is installed, too
+    seen = g.reach([g.entry], blocked_edges=blocked)
+    return g.ret_exit not in seen
+
+
+def _history_sources(mod, f: ast.AST) -> List[Tuple[ast.AST, str]]:
+    """(expression, what) for every read in *f* of an interpreter-wide table / counter that records what ran before
+    (import aliases resolved through the module's import table).  A look-up in the module table whose key the same
+    function also imports (`sys.modules.get(k) or import_module(k)`) is decided by what is installed, whichever
+    arm supplies the module, and is no source."""
+    imports = getattr(mod, "imports", {}) or {}
+
+    def full(e: ast.AST) -> Optional[str]:
+        d = dotted_name(e)
+        if d is None:
+            return None
+        head, _, rest = d.partition(".")
+        tgt = imports.get(head)
+        if tgt is not None:
+            return tgt + ("." + rest if rest else "")
+        return d
+
+    imported_keys = {norm(c.args[0]) for c in ast.walk(f) if isinstance(c, ast.Call) and (full(c.func) or "") in _IMPORTERS and c.args}
+    out: List[Tuple[ast.AST, str]] = []
+    for n in ast.walk(f):
+        if isinstance(n, (ast.Attribute, ast.Name)) and isinstance(n.ctx, ast.Load) and full(n) in HISTORY_TABLES:
+            par = getattr(n, "_parent", None)
+            if isinstance(par, ast.Attribute) and par.value is n and full(par) in HISTORY_TABLES:
+                continue  # the longer chain is the table
+            key: Optional[ast.AST] = None
+            if isinstance(par, ast.Subscript) and par.value is n:
+                key = par.slice
+            elif isinstance(par, ast.Attribute) and par.value is n and par.attr in ("get", "__getitem__", "__contains__") and isinstance(getattr(par, "_parent", None), ast.Call) and par._parent.args:
+                key = par._parent.args[0]
+            elif isinstance(par, ast.Compare) and n in par.comparators and len(par.ops) == 1 and isinstance(par.ops[0], (ast.In, ast.NotIn)):
+                key = par.left
+            if key is not None and full(n) == "sys.modules" and norm(key) in imported_keys and isinstance(f, FuncNode) and _lookup_backed_by_import(f, n, key, full):
+                continue
+            out.append((n, f"`{full(n)}` (interpreter-wide table that records what the process did before)"))
+        elif isinstance(n, ast.Call) and (full(n.func) or "") in HISTORY_CALLS:
+            out.append((n, f"`{full(n.func)}(..)` (interpreter-wide counter / table that records what the process did before)"))
+    return out
+
+
+def _flows_to_output(f: ast.AST, src: ast.AST, through_tests: bool = False) -> Optional[ast.AST]:
+    """Does the value of the expression *src* reach what *f* returns / yields / hands to a driver or a file?  Name-level
     taint over assignments, container stores and mutator calls; a comparison (`id(a) == id(b)`, `id(o) in seen`)
-    yields a bool that carries no identity, so taint stops there.  Returns the sink statement."""
+    yields a bool that carries no identity, so taint stops there - unless *through_tests*: whether a key is in a
+    table that the process fills as it runs is exactly the history the table holds.  Returns the sink statement."""
     tainted: Set[str] = set()
 
     def carries(e: Optional[ast.AST]) -> bool:
@@ -970,13 +1294,13 @@ def _flows_to_output(f: ast.AST, src: ast.Call) -> Optional[ast.AST]:
         todo = [e]
         while todo:
             n = todo.pop()
-            if isinstance(n, ast.Compare):
+            if isinstance(n, ast.Compare) and not through_tests:
                 continue
             if n is src:
                 return True
             if isinstance(n, ast.Name) and isinstance(n.ctx, ast.Load) and n.id in tainted:
                 return True
-            if isinstance(n, ast.Call) and isinstance(n.func, ast.Name) and n.func.id in ("len", "isinstance", "bool", "type", "callable"):
+            if isinstance(n, ast.Call) and isinstance(n.func, ast.Name) and n.func.id in ("len", "isinstance", "bool", "type", "callable") and not (through_tests and n.func.id in ("len", "bool")):
                 continue
             todo.extend(ast.iter_child_nodes(n))
         return False
@@ -1019,6 +1343,18 @@ def _flows_to_output(f: ast.AST, src: ast.Call) -> Optional[ast.AST]:
             tg = n.targets if isinstance(n, ast.Assign) else [n.target]
             if any(isinstance(t, (ast.Attribute, ast.Subscript)) and root(t) in ("self", "cls") for t in tg):
                 return n
+    if through_tests:
+        # what is returned under a test on the table differs from what is returned otherwise
+        for n in ast.walk(f):
+            if isinstance(n, (ast.If, ast.While, ast.IfExp)) and carries(n.test):
+                if isinstance(n, ast.IfExp):
+                    st = stmt_of(n)
+                    if isinstance(st, ast.Return) or (isinstance(st, (ast.Assign, ast.AnnAssign)) and not _const_reset(getattr(st, "value", None))):
+                        return st
+                    continue
+                rets = [x for part in (n.body, n.orelse) for b in part for x in ast.walk(b) if isinstance(x, ast.Return)]
+                if rets:
+                    return rets[0]
     return None
 
 
@@ -1077,6 +1413,7 @@ def _driver_arg(repo: Repo, c: ast.Call, index: int) -> Optional[ast.AST]:
 
 def _no_identity_in_stream(repo: Repo, R: Report, ex: ast.AST, helper_fns, drivers: Set[str]) -> None:
     r = R.rule("C10-D2-no-identity-in-stream", "no value derived from object identity, process state, randomness (id, hash, object.__repr__, pid, random) or - outside the documented volatile fields (run id, timing, driver timestamp/seq) - from a clock or a random uuid reaches what the trace-path functions return, persist or write: equal runs yield equal stable fields", 20)
+    r_hist = R.rule("C10-D2-no-process-history-in-stream", "nothing a trace-path function returns, persists or writes is read from (or selected by a test on) an interpreter-wide table or counter that other code in the process fills as it runs - the module table `sys.modules`, the import path, garbage-collector / allocator / thread / logger registries: environment pins and summaries are functions of what is installed and of this run, not of what happened to run before", 20)
     volatile = _volatile_producers(repo, ex)
     if not volatile:
         raise AnalysisError("execute(): the producers of the volatile timing block were not recognised")
@@ -1110,11 +1447,24 @@ def _no_identity_in_stream(repo: Repo, R: Report, ex: ast.AST, helper_fns, drive
             if sink is not None:
                 bad = (c, kind, sink)
                 break
+        hist_bad = False
+        if bad is None:
+            for src, what in _history_sources(fmod, f):
+                sink = _flows_to_output(f, src, through_tests=True)
+                if sink is not None:
+                    R.violation(r_hist, rel, qn, norm(stmt_of(src))[:90], f"{what} decides `{norm(sink)[:60]}`: what this trace-path function returns / writes now depends on which modules were imported, objects created or threads started by whatever ran earlier in the process - the same configuration on the same payload gives a different stable field (environment pins, summaries) after an unrelated execution, although nothing installed changed", src.lineno)
+                    hist_bad = True
+                    break
         if bad:
             c, kind, sink = bad
             R.violation(r, rel, qn, norm(stmt_of(c))[:90], f"`{norm(c)[:50]}` ({kind}) flows into `{norm(sink)[:60]}`: a stable trace field now depends on the memory address / process / moment of the run (a raw image of an arbitrary object carries the addresses of the objects it refers to), so two runs of the same configuration on the same payload give different traces", c.lineno)
         else:
             R.ok(r, rel, qn, f"{qn}: no identity" + ("/clock" if clock_too else "") + " source reaches the output")
+        if not hist_bad:
+            R.ok(r_hist, rel, qn, f"{qn}: nothing it returns / writes is read from an interpreter-wide history table")
+    for src, what in _history_sources(omod, ex):
+        sink = _flows_to_output(ex, src, through_tests=True)
+        R.check(sink is None, r_hist, ORCH, EXECUTE, norm(stmt_of(src))[:90], f"{what} decides `{norm(sink)[:60] if sink is not None else ''}`: what execute() hands to the trace driver depends on what ran earlier in the process", src.lineno)
     # execute itself: the only clock/uuid source is the run id handed to on_pipeline_start
     run_id_names: Set[str] = set()
     for c in calls_in(ex):
@@ -1543,6 +1893,8 @@ def _caught_without_reraise(node: ast.AST, classes: Set[str]) -> bool:
                 if names & (classes | {"Exception", "BaseException"}):
                     if not any(isinstance(x, ast.Raise) for st in h.body for x in ast.walk(st)):
                         return True
+        if isinstance(a, (ast.With, ast.AsyncWith)) and any(child is s for s in a.body) and _suppressed(a) & (classes | {"Exception", "BaseException"}):
+            return True
         child = a
     return False
 
